@@ -348,16 +348,16 @@ Proof. exact compose_files. Qed.
 Print Assumptions C16_async_files.
 
 (* ------------------------------------------------------------------ the current tree *)
-(* the premises hold of the constants regenerated from the current sources (closed computations) *)
+(* the premises hold of the constants regenerated from the current sources (closed computations); of the two
+   comparison operators only their agreement is required: changing both sites to `>=` is harmless *)
 Theorem C16_current_facts :
   params_ok current_params = true /\ sites_agree current_params = true /\
-  (p_fit_gt current_params = true /\ p_copy_gt current_params = true) /\
   LogFile_roll_guard_is_gt = true /\ AppendFile_append_loop_ok = true /\
   p_cap current_params = LogStream_kLargeBuffer /\
   (forall n, n <= LogStream_kSmallBuffer -> n < p_cap current_params) /\
   (0 <= flushInterval (default_cfg 0) /\ 1 <= checkEveryN (default_cfg 0) /\ 0 < LogFile_kRollPerSeconds).
 Proof.
-  split; [reflexivity|]. split; [reflexivity|]. split; [split; reflexivity|]. split; [reflexivity|].
+  split; [reflexivity|]. split; [reflexivity|]. split; [reflexivity|].
   split; [reflexivity|]. split; [reflexivity|]. split; [exact (small_lines eq_refl)|exact (default_cfg_sane eq_refl)].
 Qed.
 Print Assumptions C16_current_facts.
